@@ -335,6 +335,7 @@ func explore(spec *propSpec, bin string, seed uint64, seconds int, workers int, 
 				pos = npos
 				var lastStart *outLine
 				finished := false
+				sawHang := false
 				mu.Lock()
 				for i := range lines {
 					l := &lines[i]
@@ -342,7 +343,8 @@ func explore(spec *propSpec, bin string, seed uint64, seconds int, workers int, 
 					case "start":
 						lastStart = l
 					case "hang":
-						a.crashes = append(a.crashes, crash{Idx: l.I, Seed: l.Seed, Kind: "hang", Stderr: "task neither yielded nor blocked for 60 s"})
+						a.crashes = append(a.crashes, crash{Idx: l.I, Seed: l.Seed, Kind: "hang", Stderr: "a task neither yielded nor blocked within the watchdog period (non-termination)"})
+						sawHang = true
 					case "run":
 						if l.Res == nil {
 							continue
@@ -381,7 +383,7 @@ func explore(spec *propSpec, bin string, seed uint64, seconds int, workers int, 
 					} else {
 						next += uint64(workers)
 					}
-					if err != nil || kind != "crash" {
+					if (err != nil || kind != "crash") && !sawHang {
 						a.crashes = append(a.crashes, c)
 					}
 				}
@@ -483,6 +485,12 @@ func replayFile(spec *propSpec, bin string, path string) (ok bool, msg string, m
 	defer os.Remove(out)
 	defer os.Remove(out + ".job")
 	for _, l := range lines {
+		if l.T == "hang" {
+			if rf.Rule == "hang" {
+				return true, "a call neither returned nor yielded within the watchdog period (non-termination)", ""
+			}
+			return false, "", "worker hung"
+		}
 		if l.T == "run" && l.Res != nil {
 			if l.Res.Diverged != "" {
 				return false, "", "tape divergence: " + l.Res.Diverged
@@ -498,7 +506,7 @@ func replayFile(spec *propSpec, bin string, path string) (ok bool, msg string, m
 	// crashed: race / panic flavours
 	if werr != nil {
 		kind := classifyCrash(stderr)
-		if rf.Property == "C08" && (kind == rf.Rule) {
+		if (rf.Property == "C08" || rf.Property == "C12") && (kind == rf.Rule) {
 			return true, firstLines(stderr, 30), ""
 		}
 		return false, "", "worker failed: " + firstLines(stderr, 10)
@@ -699,7 +707,7 @@ func check(id, tier string) int {
 			kinds[c.Kind] = append(kinds[c.Kind], c)
 		}
 		for kind, cs := range kinds {
-			if spec.ID != "C08" {
+			if spec.ID != "C08" && !(spec.ID == "C12" && (kind == "hang" || kind == "panic")) {
 				a.collateral["C08/"+kind] += len(cs)
 				continue
 			}
@@ -707,13 +715,13 @@ func check(id, tier string) int {
 			os.MkdirAll(filepath.Join(verifRoot, "replays"), 0o755)
 			path := filepath.Join(verifRoot, "replays", fmt.Sprintf("%s-%d.json", spec.ID, c.Seed))
 			prof := spec.Profiles[int(c.Idx%uint64(len(spec.Profiles)))]
-			rf := map[string]any{"property": "C08", "rule": kind, "engine": spec.Engine, "race": spec.Race, "verif_seed": seed,
+			rf := map[string]any{"property": spec.ID, "rule": kind, "engine": spec.Engine, "race": spec.Race, "verif_seed": seed,
 				"run_index": c.Idx, "run_seed": c.Seed, "profile": prof, "repo_rev": repoRev(), "minimised": false, "message": firstLines(c.Stderr, 60)}
 			b, _ := json.MarshalIndent(rf, "", " ")
 			os.WriteFile(path, b, 0o644)
 			nviol += len(cs)
 			exit = 1
-			fmt.Printf("VIOLATION property=C08 replay=%s\n  rule=%s runs=%d run_seed=%d\n%s\n", path, kind, len(cs), c.Seed, indent(firstLines(c.Stderr, 40)))
+			fmt.Printf("VIOLATION property=%s replay=%s\n  rule=%s runs=%d run_seed=%d\n%s\n", spec.ID, path, kind, len(cs), c.Seed, indent(firstLines(c.Stderr, 40)))
 		}
 	}
 	if a.diverged > 0 {
@@ -733,6 +741,9 @@ func check(id, tier string) int {
 func indent(s string) string { return "    " + strings.ReplaceAll(s, "\n", "\n    ") }
 
 func replay(path string) int {
+	if abs, err := filepath.Abs(path); err == nil {
+		path = abs
+	}
 	b, err := os.ReadFile(path)
 	if err != nil {
 		die2("cannot read %s", path)
